@@ -2216,11 +2216,13 @@ theorem wrapOpts_B_para_map (hmap : Spec.TokMap tkB tkB g) (hgA : g [0x41] = [0x
     (o0 o : Options (List Int)) (hpp : o.preservePara = true)
     (hL : SepFix V g (o.withDefaults cxB).lineSep) (hP : SepFix V g (o.withDefaults cxB).paraSep)
     (hLV : ∀ t ∈ (o.withDefaults cxB).lineSep, t ∈ V)
-    (hPV : ∀ t ∈ (o.withDefaults cxB).paraSep, t ∈ V) (width : Int) :
+    (hPV : ∀ t ∈ (o.withDefaults cxB).paraSep, t ∈ V) (width : Int)
+    (hAL : (0x41 : Int) ∉ ((o.withDefaults cxB).lineSep).flatten) :
     Editor.wrapOpts cxB (.root (toks.map g) o0) width o =
       (Editor.wrapOpts cxB (.root toks o0) width o).map
         (fun e => e.withText (e.text.map g)) := by
-  rw [wrapOpts_para cxB _ width o hpp, wrapOpts_para cxB _ width o hpp]
+  rw [wrapOpts_para cxB _ width o hpp (phA_not_mem_B hAL),
+    wrapOpts_para cxB _ width o hpp (phA_not_mem_B hAL)]
   exact applyParasM_B_map toks ht o0 o hL hP hLV hPV _
     (fun i para pre suf hpara _ _ => wrapParaCb_B_map hmap hgA hA hL _ i para pre suf hpara)
 
@@ -2231,7 +2233,9 @@ end BridgeNatural2
 open BridgeNatural2 BridgeEditorParas BridgeEditorOps in
 /-- **E2 (WrapOpts, paragraph mode).** hypotheses of `wrapOpts_natural` plus: the separators form
 a `GoodPara` pair for both vocabularies, `g` fixes the tokens of the paragraph separator too (and
-hits them from no other token), and the placeholder cluster `A` is in `V` and fixed by `g`. -/
+hits them from no other token), and the placeholder cluster `A` is in `V`, fixed by `g`, and not a
+rune of the line separator (`hAL`; a separator that contains it is padded with another letter —
+the repair of defect D18 — which need not be a cluster of `V`). -/
 theorem wrapOpts_natural_para {V V' : List (List Int)} (hV : VocabStable V = true)
     (hsp : [0x20] ∈ V) (hhy : [0x2D] ∈ V) (hA : [0x41] ∈ V)
     (hspTail : ∀ t ∈ V, (0x20 : Int) ∉ t.tail)
@@ -2246,7 +2250,8 @@ theorem wrapOpts_natural_para {V V' : List (List Int)} (hV : VocabStable V = tru
     (hfix : ∀ s ∈ (o.withDefaults cxB).lineSep, g s = s)
     (hinv : ∀ t ∈ V, g t ∈ (o.withDefaults cxB).lineSep → t ∈ (o.withDefaults cxB).lineSep)
     (hfixP : ∀ s ∈ (o.withDefaults cxB).paraSep, g s = s)
-    (hinvP : ∀ t ∈ V, g t ∈ (o.withDefaults cxB).paraSep → t ∈ (o.withDefaults cxB).paraSep) :
+    (hinvP : ∀ t ∈ V, g t ∈ (o.withDefaults cxB).paraSep → t ∈ (o.withDefaults cxB).paraSep)
+    (hAL : (0x41 : Int) ∉ ((o.withDefaults cxB).lineSep).flatten) :
     ∃ r : List (List Int),
       Editor.wrapOpts cxA (.root toks.flatten o0.flat) width o.flat =
         .ok (.root r.flatten o0.flat) ∧
@@ -2256,14 +2261,14 @@ theorem wrapOpts_natural_para {V V' : List (List Int)} (hV : VocabStable V = tru
   have hmap : Spec.TokMap tkB tkB g := ⟨hws, hgsp, hghy⟩
   refine natural_of_bridge (opA := fun e => Editor.wrapOpts cxA e width o.flat)
     (opB := fun e => Editor.wrapOpts cxB e width o) toks o0 g
-    (wrapOpts_bridge_para hV hsp hhy hA hspTail (.root toks o0) ht width o hpp hG)
+    (wrapOpts_bridge_para hV hsp hhy hA hspTail (.root toks o0) ht width o hpp hG hAL)
     (wrapOpts_bridge_para hV' (hgsp ▸ hg _ hsp) (hghy ▸ hg _ hhy) (hgA ▸ hg _ hA) hspTail'
-      (.root (toks.map g) o0) (over_map hg ht) width o hpp hG')
+      (.root (toks.map g) o0) (over_map hg ht) width o hpp hG' hAL)
     (wrapOpts_B_para_map hmap hgA hA toks ht o0 o hpp ⟨hfix, hinv⟩ ⟨hfixP, hinvP⟩ hG.lineV
-      hG.paraV width)
+      hG.paraV width hAL)
     (wrapOpts_total cxA_Sane _ width o.flat) ?_
   intro e he
-  rw [wrapOpts_para cxB _ width o hpp] at he
+  rw [wrapOpts_para cxB _ width o hpp (phA_not_mem_B hAL)] at he
   exact applyParasM_ok_shape cxB _ _ o e he
 
 /-! ### E.3 JustifyOpts, paragraph mode (same placeholder `A` as in E.2) -/
@@ -2383,11 +2388,13 @@ theorem justifyOpts_B_para_map (hmap : Spec.TokMap tkB tkB g) (hgA : g [0x41] = 
     (o0 o : Options (List Int)) (hpp : o.preservePara = true)
     (hL : SepFix V g (o.withDefaults cxB).lineSep) (hP : SepFix V g (o.withDefaults cxB).paraSep)
     (hLV : ∀ t ∈ (o.withDefaults cxB).lineSep, t ∈ V)
-    (hPV : ∀ t ∈ (o.withDefaults cxB).paraSep, t ∈ V) (width : Int) :
+    (hPV : ∀ t ∈ (o.withDefaults cxB).paraSep, t ∈ V) (width : Int)
+    (hAL : (0x41 : Int) ∉ ((o.withDefaults cxB).lineSep).flatten) :
     Editor.justifyOpts cxB (.root (toks.map g) o0) width o =
       (Editor.justifyOpts cxB (.root toks o0) width o).map
         (fun e => e.withText (e.text.map g)) := by
-  rw [justifyOpts_para cxB _ width o hpp, justifyOpts_para cxB _ width o hpp]
+  rw [justifyOpts_para cxB _ width o hpp (phA_not_mem_B hAL),
+    justifyOpts_para cxB _ width o hpp (phA_not_mem_B hAL)]
   exact applyParasM_B_map toks ht o0 o hL hP hLV hPV _
     (fun i para pre suf hpara _ _ =>
       justifyParaCb_B_map hmap hgA hA hL _ _ i para pre suf hpara)
@@ -2398,7 +2405,7 @@ end BridgeNatural2
 
 open BridgeNatural2 BridgeEditorParas BridgeEditorOps in
 /-- **E3 (JustifyOpts, paragraph mode).** `JustifyLastLine` on or off; hypotheses as in E2 (no
-hyphen is produced) -/
+hyphen is produced), `hAL` included: JustifyOpts pads with the same stand-in as WrapOpts -/
 theorem justifyOpts_natural_para {V V' : List (List Int)} (hV : VocabStable V = true)
     (hsp : [0x20] ∈ V) (hA : [0x41] ∈ V) (hspTail : ∀ t ∈ V, (0x20 : Int) ∉ t.tail)
     (hV' : VocabStable V' = true) (hspTail' : ∀ t ∈ V', (0x20 : Int) ∉ t.tail)
@@ -2412,7 +2419,8 @@ theorem justifyOpts_natural_para {V V' : List (List Int)} (hV : VocabStable V = 
     (hfix : ∀ s ∈ (o.withDefaults cxB).lineSep, g s = s)
     (hinv : ∀ t ∈ V, g t ∈ (o.withDefaults cxB).lineSep → t ∈ (o.withDefaults cxB).lineSep)
     (hfixP : ∀ s ∈ (o.withDefaults cxB).paraSep, g s = s)
-    (hinvP : ∀ t ∈ V, g t ∈ (o.withDefaults cxB).paraSep → t ∈ (o.withDefaults cxB).paraSep) :
+    (hinvP : ∀ t ∈ V, g t ∈ (o.withDefaults cxB).paraSep → t ∈ (o.withDefaults cxB).paraSep)
+    (hAL : (0x41 : Int) ∉ ((o.withDefaults cxB).lineSep).flatten) :
     ∃ r : List (List Int),
       Editor.justifyOpts cxA (.root toks.flatten o0.flat) width o.flat =
         .ok (.root r.flatten o0.flat) ∧
@@ -2422,14 +2430,14 @@ theorem justifyOpts_natural_para {V V' : List (List Int)} (hV : VocabStable V = 
   have hmap : Spec.TokMap tkB tkB g := ⟨hws, hgsp, hghy⟩
   refine natural_of_bridge (opA := fun e => Editor.justifyOpts cxA e width o.flat)
     (opB := fun e => Editor.justifyOpts cxB e width o) toks o0 g
-    (justifyOpts_bridge_para hV hsp hA hspTail (.root toks o0) ht width o hpp hG)
+    (justifyOpts_bridge_para hV hsp hA hspTail (.root toks o0) ht width o hpp hG hAL)
     (justifyOpts_bridge_para hV' (hgsp ▸ hg _ hsp) (hgA ▸ hg _ hA) hspTail'
-      (.root (toks.map g) o0) (over_map hg ht) width o hpp hG')
+      (.root (toks.map g) o0) (over_map hg ht) width o hpp hG' hAL)
     (justifyOpts_B_para_map hmap hgA hA toks ht o0 o hpp ⟨hfix, hinv⟩ ⟨hfixP, hinvP⟩ hG.lineV
-      hG.paraV width)
+      hG.paraV width hAL)
     (justifyOpts_total cxA_Sane _ width o.flat) ?_
   intro e he
-  rw [justifyOpts_para cxB _ width o hpp] at he
+  rw [justifyOpts_para cxB _ width o hpp (phA_not_mem_B hAL)] at he
   exact applyParasM_ok_shape cxB _ _ o e he
 
 /-! ### E.4 AlignOpts, paragraph mode
@@ -2837,12 +2845,14 @@ example (toks : List (List Int)) (ht : ∀ t ∈ toks, t ∈ demoVocabA) (align 
       { preservePara := true } rfl (by rw [hseps.1, hseps.2]; exact demoVocabA_goodPara)
       (by rw [hseps.1, hseps.2]; exact demoVocabNFCA_goodPara) (by rw [hseps.1]; decide)
       (by rw [hseps.1]; decide) (by rw [hseps.2]; decide) (by rw [hseps.2]; decide)
+      (by rw [hseps.1]; decide)
     exact ⟨r, h1, h2⟩
   · obtain ⟨r, h1, h2, -⟩ := justifyOpts_natural_para demoVocabA_stable (by decide)
       (by decide) hspT demoVocabNFCA_stable hspT' demoG hg demoG_ws rfl rfl rfl toks ht width o0
       { preservePara := true } rfl (by rw [hseps.1, hseps.2]; exact demoVocabA_goodPara)
       (by rw [hseps.1, hseps.2]; exact demoVocabNFCA_goodPara) (by rw [hseps.1]; decide)
       (by rw [hseps.1]; decide) (by rw [hseps.2]; decide) (by rw [hseps.2]; decide)
+      (by rw [hseps.1]; decide)
     exact ⟨r, h1, h2⟩
   · obtain ⟨r, h1, h2, -⟩ := alignOpts_natural_para demoVocabA_stable (by decide)
       demoVocabNFCA_stable demoG hg demoG_ws rfl rfl toks ht align width o0
